@@ -956,3 +956,43 @@ Proof.
   - split; [apply Hn; exact E1|split; [apply Hn; exact E2|split; [apply Hn; exact E3|apply H; exact E4]]].
   - split; [apply Hn; exact E1|split; [apply Hn; exact E2|split; [apply Hn; exact E3|apply Hn; exact E4]]].
 Qed.
+
+(* ================================================================================ *)
+(* 8. the order in which the store lists the objects is irrelevant                    *)
+(* ================================================================================ *)
+Lemma filter_permutation : forall (A : Type) (f : A -> bool) l1 l2,
+  Permutation l1 l2 -> Permutation (filter f l1) (filter f l2).
+Proof.
+  intros A f l1 l2 H. induction H as [|x l l' H IH|x y l|l l' l'' H1 IH1 H2 IH2].
+  - constructor.
+  - cbn. destruct (f x); [constructor|]; exact IH.
+  - cbn. destruct (f x), (f y); try reflexivity. constructor.
+  - etransitivity; eassumption.
+Qed.
+
+(* whatever permutation of the keys with the listing prefix the store hands over (the ObjectIO
+   contract promises no order), filtering it by the compiled pattern and sorting gives the
+   expansion of the whole bucket *)
+Theorem listing_order_irrelevant : forall ks p listing r,
+  parse (glob_to_regex p) = Some r ->
+  Permutation listing (filter (prefix_ok (literal_prefix p)) ks) ->
+  sort_keys (filter (rmatch r) listing) = expand_ref ks p.
+Proof.
+  intros ks p listing r Hr Hperm.
+  pose proof (expand_is_ref ks p) as E. unfold expand in E. rewrite Hr in E. injection E as E.
+  rewrite <- E. symmetry. apply sort_keys_unique; [apply sort_keys_strongly_sorted|].
+  rewrite sort_keys_perm. apply filter_permutation. symmetry. exact Hperm.
+Qed.
+
+(* list_objects of the fake store is such a listing *)
+Theorem ms_list_spec : forall ms b pre,
+  ms_list ms b pre =
+  match ms_keys ms b with
+  | None => Err NotFound
+  | Some ks => Ok (sort_keys (filter (prefix_ok pre) ks))
+  end /\
+  forall ks, ms_keys ms b = Some ks ->
+    Permutation (sort_keys (filter (prefix_ok pre) ks)) (filter (prefix_ok pre) ks).
+Proof.
+  intros ms b pre. split; [reflexivity|]. intros ks _. apply sort_keys_perm.
+Qed.
